@@ -317,7 +317,11 @@ def r4(ctx: Ctx) -> None:
 
     only("Logger.write", w)
     only("Logger.bulk_write", bw)
-    only("Logger._process", pr)
+    if len(normal_paths(ctx.paths("Logger._process"))) == 1:
+        only("Logger._process", pr)
+    else:
+        g_ = ctx.func("Logger._process")
+        ctx.unrec(g_, g_.node, "Logger._process", "processing is not the single step `process(pending); pending = []` (branches or batches): whether every pending record is handed on once, in order, is not decided")
     only("Logger.write_and_direct_process", direct("log"))
     only("Logger.bulk_write_and_direct_process", direct("logs"))
     for q, callee, arg in (("Log.read_and_write", "Logger.write", "log"), ("Log.read_and_write_with_direct_process", "Logger.write_and_direct_process", "log")):
@@ -412,15 +416,23 @@ def r6(ctx: Ctx) -> None:
                     continue
                 inner = loops(bp)
                 kinds = []
+                kept = False
                 for l in inner:
                     el = ("sym", f"{l.target[0]}∈{l.loopid}")
-                    per = []
+                    per_paths = []
                     src_ok = key(strip_ver(l.iter)) in ("self.simulator.markets", "markets")
                     for ip in l.paths:
                         lg = [pol for c, pol, _ in ip.conds if key(strip_ver(c)) == "(self.logger is None)"]
                         if lg and lg[-1]:
                             continue
+                        per = []
+                        per_paths.append(per)
                         made = [e for e in calls(ip) if e.site.how == "ctor" and e.name in ("MarketStepBeginLog", "MarketStepEndLog")]
+                        written = [e for e in calls(ip) if e.name == "read_and_write_with_direct_process"]
+                        if any(not any(w_.recv == m_.term for m_ in made) for w_ in written):
+                            kept = True  # a record that was not built on this path (kept from an earlier step) is written
+                        # a record that is built and stored away for later, not written here, is not this step's record
+                        made = [m_ for m_ in made if any(w_.recv == m_.term for w_ in written) or not any(e_.kind == "store" and m_.term in list(subterms(e_.value)) for e_ in ip.events)]
                         for m in made:
                             w = [e for e in calls(ip) if e.name == "read_and_write_with_direct_process" and e.recv == m.term]
                             good = len(w) == 1 and kw(m, "market", 1) == el and key(kw(m, "session", 0) or NONE) == "session" and src_ok
@@ -430,9 +442,22 @@ def r6(ctx: Ctx) -> None:
                                 ti, wi = ip.events.index(trig[0]), ip.events.index(w[0]) if w else -1
                                 order_ok = (ti < wi) if m.name == "MarketStepBeginLog" else (wi < ti and wi >= 0)
                             per.append((m.name, good and order_ok))
-                    kinds.extend(per)
+                    # the passes over one market loop differ only in decisions that do not concern the record
+                    # (e.g. whether a hook is due): what they write has to agree
+                    distinct = []
+                    for per in per_paths:
+                        if per not in distinct:
+                            distinct.append(per)
+                    if len(distinct) == 1:
+                        kinds.extend(distinct[0])
+                    else:
+                        for per in distinct:
+                            kinds.extend(per or [("<no record on some path>", False)])
                 names = [k for k, _ in kinds]
                 ok = names == ["MarketStepBeginLog", "MarketStepEndLog"] and all(g_ for _, g_ in kinds)
+                if kept:
+                    ctx.unrec(g, sl_.node, "per step and per market: a begin record before and an end record after the order phase, processed directly", "records kept from an earlier step are written again: whether they still name this session and market is not decided")
+                    continue
                 ctx.check(ok, g, sl_.node, "per step and per market: a begin record before and an end record after the order phase, processed directly", "for each market: MarketStepBeginLog(session, market) ... for each market: MarketStepEndLog(session, market)", str(kinds))
                 # order phase between the two market loops
                 um = [e for e in bp.events if e.kind == "call" and e.name == "_update_markets"]
